@@ -600,3 +600,8 @@ def run(ck, F, tier):
     r5_who_may_write(ck, F)
     r6_disposable(ck, F)
     r8_initial_state(ck, F)
+    # "a disposable picture is decoded like a predicted picture": besides the macroblock syntax (R3), the macroblock loop treats the two alike where
+    # it looks at the picture type - a not-coded macroblock is an error only in an I picture (C03's rule UC, re-run on this tree)
+    from . import c03
+    from ..report import Scoped
+    c03.rule_uc(Scoped(ck, 'C03.'), F)
